@@ -60,7 +60,7 @@ CLAIMED = {
          "syntactic obligation. persist/load serialise exactly self.schema / wrap exactly what was parsed. Native tests build, persist, "
          "read back (the way the compiler does) and compare."),
    note=("NOT decided: the attribute channel (proc-macro -> rustdoc JSON -> darling) — second sentence of C19; serde/RON round trip of "
-         "the schema types is an assumed axiom (exercised natively); reflection::Sources conversion is an assumed contract."),
+         "the schema types is an assumed axiom (exercised natively); reflection::Sources conversion (sources2sources: into_iter().map().collect()) is extracted and proved.."),
    design="§3/C19"),
  "C10": dict(
    text=("Partial claim — the idempotence and `--check` clauses. The file system is a read-only snapshot and every primitive that "
